@@ -201,6 +201,7 @@ where
         v.dsigns = self.dsigns.clone();
         v.hsblocks = crate::verif::vec_of(&self.Hsblocks);
         v.diagonal_regularizer = crate::verif::f64_of(self.diagonal_regularizer);
+        v.ldl_reg = self.ldlsolver.verif_reg();
         Some(v)
     }
 
